@@ -31,9 +31,39 @@ struct Ad {
     /// its limit subscriber has a value it has not handed to the adapter yet
     unseen: bool,
     last_pending: Option<Arc<FlagWaker>>,
+    /// twin-waker mode: this adapter is always polled with the same waker, one of two that share a data pointer;
+    /// wakes are judged by counts (`pending_at` = its count at the last Pending poll)
+    twin: Option<(Arc<Twin>, usize, std::task::Waker)>,
+    is_pending: bool,
+    pending_at: u64,
     ended: bool,
     /// which source vector it watches
     src: usize,
+}
+
+impl Ad {
+    fn waker(&self) -> (Option<Arc<FlagWaker>>, std::task::Waker) {
+        match &self.twin {
+            Some((_, _, w)) => (None, w.clone()),
+            None => {
+                let (f, w) = flag_waker();
+                (Some(f), w)
+            }
+        }
+    }
+    fn woken_since_pending(&self) -> bool {
+        match &self.twin {
+            Some((t, k, _)) => t.wakes[*k].load(std::sync::atomic::Ordering::SeqCst) > self.pending_at,
+            None => self.last_pending.as_ref().map_or(true, |p| p.woken()),
+        }
+    }
+    fn note_pending(&mut self, flag: Option<Arc<FlagWaker>>) {
+        self.is_pending = true;
+        self.last_pending = flag;
+        if let Some((t, k, _)) = &self.twin {
+            self.pending_at = t.wakes[*k].load(std::sync::atomic::Ordering::SeqCst);
+        }
+    }
 }
 
 fn view(kind: usize, p: Option<usize>, input: &[Item]) -> Vec<Item> {
@@ -71,21 +101,20 @@ fn drain(a: &mut Ad, cur_limit: Option<usize>, contents: &[Item], src_alive: boo
         return None;
     }
     for _ in 0..10_000 {
-        let (flag, waker) = flag_waker();
+        let (flag, waker) = a.waker();
         let mut cx = Context::from_waker(&waker);
         let r = a.s.as_mut().poll_next(&mut cx);
         if r.is_ready() {
-            if let Some(pf) = &a.last_pending {
-                if !pf.woken() {
-                    return Some((
-                        "C14",
-                        format!("{}: the stream is ready again ({}) although the waker supplied to its last Pending poll was never woken", a.name, match &r {
-                            Poll::Ready(Some(d)) => D::of(d).show(),
-                            _ => "end".into(),
-                        }),
-                    ));
-                }
+            if a.is_pending && !a.woken_since_pending() {
+                return Some((
+                    "C14",
+                    format!("{}: the stream is ready again ({}) although the waker supplied to its last Pending poll was never woken", a.name, match &r {
+                        Poll::Ready(Some(d)) => D::of(d).show(),
+                        _ => "end".into(),
+                    }),
+                ));
             }
+            a.is_pending = false;
             a.last_pending = None;
         }
         match r {
@@ -103,7 +132,7 @@ fn drain(a: &mut Ad, cur_limit: Option<usize>, contents: &[Item], src_alive: boo
                 break;
             }
             Poll::Pending => {
-                a.last_pending = Some(flag);
+                a.note_pending(flag);
                 if !src_alive {
                     return Some(("C09", format!("{}: Pending although the source vector was dropped", a.name)));
                 }
@@ -173,6 +202,7 @@ fn pair_case(rng: &mut Rng, log: &mut Vec<String>, ev: &mut Ev) -> Option<(&'sta
         _ => (Observable::subscribe(limit.as_ref().unwrap()), false),
     };
     log.push(format!("second limit subscriber by {}", ["clone", "clone_reset", "an independent subscribe"][how2]));
+    let twins = if rng.chance(1, 3) { Some(twin_wakers()) } else { None };
     let mut ads: Vec<Ad> = vec![];
     for (k, (ls, un)) in [(sub, unseen), (sub2, unseen2)].into_iter().enumerate() {
         let kind = kinds[k];
@@ -189,7 +219,34 @@ fn pair_case(rng: &mut Rng, log: &mut Vec<String>, ev: &mut Ev) -> Option<(&'sta
         if vals(&vals0) != vals(&want) {
             return Some(("C09", format!("{name}: initial values {:?}, expected {:?}", vals(&vals0), vals(&want))));
         }
-        ads.push(Ad { name, kind, s, replica: vals0, limit: init, unseen: un, last_pending: None, ended: false, src });
+        let tw = twins.as_ref().map(|(t, w)| (t.clone(), k, w[k].clone()));
+        ads.push(Ad { name, kind, s, replica: vals0, limit: init, unseen: un, last_pending: None, twin: tw, is_pending: false, pending_at: 0, ended: false, src });
+    }
+    if twins.is_some() {
+        // one busy view, one idle one: both are drained once (the idle one second), then the busy one handles a
+        // series of source updates - dozens of registrations pile up on the limit observable - and then the limit
+        // changes: the idle view's waker must be woken too
+        log.push("the two adapters are polled with two wakers that share their data pointer (twin wakers)".into());
+        for k in 0..2 {
+            let contents = items_of(vecs[ads[k].src].as_ref().unwrap().iter());
+            if let Some(c) = drain(&mut ads[k], limit.as_ref().map(|_| cur), &contents, true, log) {
+                return Some(c);
+            }
+        }
+        for r in 0..rng.range(18, 45) {
+            let src = ads[0].src;
+            let v = vecs[src].as_mut().unwrap();
+            if r % 2 == 0 {
+                v.push_back(Tracked::new(r as u32 % 20));
+            } else {
+                drop(v.pop_front());
+            }
+            let contents = items_of(v.iter());
+            if let Some(c) = drain(&mut ads[0], limit.as_ref().map(|_| cur), &contents, true, log) {
+                return Some(c);
+            }
+        }
+        ev.count("pairs_twin_waker_series");
     }
     let n_ops = rng.range(4, 30);
     for _ in 0..n_ops {
@@ -284,15 +341,14 @@ fn drain_end_only(a: &mut Ad) -> Option<(&'static str, String)> {
         return None;
     }
     for _ in 0..10_000 {
-        let (flag, waker) = flag_waker();
+        let (flag, waker) = a.waker();
         let mut cx = Context::from_waker(&waker);
         let r = a.s.as_mut().poll_next(&mut cx);
         if r.is_ready() {
-            if let Some(pf) = &a.last_pending {
-                if !pf.woken() {
-                    return Some(("C14", format!("{}: ready again after the drop of its source although the waker of its last Pending poll was never woken", a.name)));
-                }
+            if a.is_pending && !a.woken_since_pending() {
+                return Some(("C14", format!("{}: ready again after the drop of its source although the waker of its last Pending poll was never woken", a.name)));
             }
+            a.is_pending = false;
             a.last_pending = None;
         }
         match r {
